@@ -225,6 +225,21 @@ def _boundary(ctx):
     return True
 
 
+def _variants(ctx):
+    # mutation variants of the models: a handler exit releasing the in-progress slot twice must break
+    # ConcurrentCap; a dial-back cleanup that leaves the address in the dialer's address book must break
+    # DialOnlyRequested.  (Guards that both hazards are really modelled.)
+    cfg = tlc.subst_cfg("C16_MC.cfg", {"DoubleRelease": "TRUE"}, replace=[(INV_A, "INVARIANTS ConcurrentCap"), (PROP_A, "")])
+    r = tlc.run(ctx, "C16_MC", "gen_lim_double.cfg", cfg_text=cfg, workers=1, timeout=600, name="double")
+    if r.ok or r.violated != "ConcurrentCap":
+        raise MachineryError("variant guard: a double CompleteRequest does not break ConcurrentCap in the model")
+    cfg = tlc.subst_cfg("C16_MCServer.cfg", {"KeepAddrs": "TRUE"}, replace=[(PROP_B, "PROPERTIES DialOnlyRequested")])
+    r = tlc.run(ctx, "C16_MCServer", "gen_srv_keep.cfg", cfg_text=cfg, workers=1, timeout=600, name="keep")
+    if r.ok or r.violated != "DialOnlyRequested":
+        raise MachineryError("variant guard: a dialer address book that is not cleared does not break DialOnlyRequested in the model")
+    return True
+
+
 def run(ctx):
     if ctx.replay:
         return replay(ctx)
@@ -252,6 +267,7 @@ def run(ctx):
             futs += [ex.submit(_lim_mc, (ctx, i, 1)) for i in reversed(small)]
             futs += [ex.submit(_srv_mc, (ctx, i)) for i in si]
             futs.append(ex.submit(_boundary, ctx))
+            futs.append(ex.submit(_variants, ctx))
             results = [f.result() for f in futs]
         for i in big:
             results.append(_lim_mc((ctx, i, 4)))
@@ -295,6 +311,11 @@ def run(ctx):
     div += classify_mismatches(ctx, c, "concurrent")
     if p["replayed"] == 0 or c["replayed"] == 0:
         raise MachineryError("pattern / concurrency scenarios did not run")
+    cx = c.get("extra") or {}
+    if not c["mismatches"]:
+        for need in ["n_park/", "n_park/REJECTED", "n_needdata/DATAREQ", "n_needdata/REJECTED", "n_refused/REFUSED", "n_garbage/", "n_resume"]:
+            if not cx.get(need):
+                raise MachineryError("vacuous concurrency schedules: no %s" % need)
     # the boundary case must also have been exercised on the real limiter (informational, not a verdict)
     closed_replay = (a.get("extra") or {}).get("closed_window_instances_over_rpm", 0)
     closed_pat = (p.get("extra") or {}).get("closed_window_patterns_over_rpm", 0)
@@ -315,7 +336,7 @@ def run(ctx):
         limiter_replay_transitions_in_graphs=lim_edges, limiter_replay_distinct_executed=a["distinct"], limiter_replay_steps=a["steps"],
         server_replay_transitions_in_graphs=srv_edges, server_replay_distinct_executed=b["distinct"], server_replay_steps=b["steps"],
         pattern_sequences=p["replayed"], pattern_steps=p["steps"], concurrent_schedules=c["replayed"], concurrent_steps=c["steps"],
-        server_observed=b.get("extra") or {}, limiter_closed_window_max=(a.get("extra") or {}).get("closed_window_max"),
+        server_observed=b.get("extra") or {}, concurrent_observed=cx, limiter_closed_window_max=(a.get("extra") or {}).get("closed_window_max"),
         boundary_closed_window_over_rpm_replay_instances=closed_replay, boundary_closed_window_over_rpm_patterns=closed_pat,
         divergences_L2=div, notes=ctx.notes[:10], rule="limiter: %s | server: %s" % (a.get("rule"), b.get("rule")))
     return {"level": "model_checking", "coverage": cov, "assumptions": [
